@@ -14,16 +14,13 @@ pub const IDENTS: &[&str] = &[
     // prelude look-alikes
     "Some", "None", "Ok", "Err", "Default", "Const", "Type", "Box", "Self_", "String", "Vec", "Option",
     // non-ASCII
-    "Straße", "Ünï", "Éclair", "Ñandú",
+    "Straße", "Ünï", "Éclair", "Ñandú", "Öl2", "Straße3", "Größe10",
 ];
 
 /// identifiers whose generated method / field names are specified by the statement
 /// (no underscore directly before a digit, ASCII only)
 pub fn method_safe(id: &str) -> bool {
     let b: Vec<char> = id.chars().collect();
-    if !id.is_ascii() {
-        return false;
-    }
     for i in 1..b.len() {
         if b[i].is_ascii_digit() && b[i - 1] == '_' {
             return false;
@@ -45,6 +42,9 @@ pub const STEMS: &[&str] = &[
     // escaped braces are not placeholders: the literal is the name, verbatim, for every derive
     "set{{}}", "open{{", "}}close", "a{{b}}c",
 ];
+
+/// string property values: also texts that look like other literal kinds
+pub const PROP_STRINGS: &[&str] = &["Ms.Frizzle", "201", "-1", "0", "true", "false", "", "x", "1.5", "9223372036854775807", "2:30", "ünï 🦀", "a \"q\""];
 
 pub const MESSAGES: &[&str] = &[
     "I have a dog", "My dog's name is Spots", "", " ", "msg with \"quotes\"", "back\\slash", "brace { } {0} {x}",
